@@ -44,7 +44,7 @@ class Program:
 # ---------------------------------------------------------------------------
 
 LENGTHS_SMOOTH = [2, 3, 4, 5, 6, 7, 9, 12, 24, 36]
-VALID_MODES = ["all", "none", "one", "two", "threshold", "some", "runs"]
+VALID_MODES = ["all", "none", "one", "two", "threshold", "some", "runs", "zeros", "const", "mostly-zero", "ties"]
 
 
 def series(nprng, n, dtype, valid="some", nodata=NODATA, kind="ndvi"):
@@ -88,6 +88,21 @@ def series(nprng, n, dtype, valid="some", nodata=NODATA, kind="ndvi"):
         a = int(nprng.integers(0, n))
         b = int(min(n, a + nprng.integers(1, max(2, n // 2))))
         v[a:b] = nd
+    elif valid == "zeros":
+        v[:] = 0
+    elif valid == "const":
+        v[:] = v[int(nprng.integers(0, n))]
+    elif valid == "mostly-zero":
+        keep = int(nprng.integers(0, n))
+        x = v[keep]
+        v[:] = 0
+        v[keep] = x
+    elif valid == "ties":
+        # few distinct values, the maximum repeated
+        lv = np.sort(v)[:: max(1, n // 3)][:3]
+        v[:] = lv[nprng.integers(0, len(lv), n)]
+        v[int(nprng.integers(0, n))] = v.max()
+        v[0] = v.max()
     return v
 
 
@@ -477,25 +492,25 @@ PROGRAMS = {
     "mean_grp": Program("gufunc", _attr(STATS, "mean_grp"), gen_mean_grp, NB_SMOOTH),
     "rolling_sum": Program("gufunc", _attr(STATS, "rolling_sum"), gen_rolling_sum, NB_SMOOTH),
     # njit drivers
-    "ws2d": Program("njit", _attr("hdc.algo.ops.ws2d", "ws2d"), gen_ws2d, 70),
-    "_ws2doptvp": Program("njit", _attr("hdc.algo.ops.ws2doptvp", "_ws2doptvp"), gen__ws2doptvp, 70),
-    "_ws2dwcvp": Program("njit", _attr("hdc.algo.ops.ws2dwcvp", "_ws2dwcvp"), gen__ws2dwcvp, 70),
-    "ws2doptvplc_tyx": Program("njit", _attr("hdc.algo.ops.ws2doptvplc", "ws2doptvplc_tyx"), gen_ws2doptvplc_tyx, 196),
-    "gammafit": Program("njit", _attr(STATS, "gammafit"), gen_gammafit, 70),
-    "gammastd": Program("njit", _attr(STATS, "gammastd"), gen_gammastd, 70),
-    "gammastd_yxt": Program("njit", _attr(STATS, "gammastd_yxt"), gen_gammastd_yxt, 196),
-    "mk_score": Program("njit", _attr(STATS, "mk_score"), gen_mk1, 70),
-    "mk_variance_s": Program("njit", _attr(STATS, "mk_variance_s"), gen_mk1, 70),
+    "ws2d": Program("njit", _attr("hdc.algo.ops.ws2d", "ws2d"), gen_ws2d, 110),
+    "_ws2doptvp": Program("njit", _attr("hdc.algo.ops.ws2doptvp", "_ws2doptvp"), gen__ws2doptvp, 110),
+    "_ws2dwcvp": Program("njit", _attr("hdc.algo.ops.ws2dwcvp", "_ws2dwcvp"), gen__ws2dwcvp, 110),
+    "ws2doptvplc_tyx": Program("njit", _attr("hdc.algo.ops.ws2doptvplc", "ws2doptvplc_tyx"), gen_ws2doptvplc_tyx, 308),
+    "gammafit": Program("njit", _attr(STATS, "gammafit"), gen_gammafit, 110),
+    "gammastd": Program("njit", _attr(STATS, "gammastd"), gen_gammastd, 110),
+    "gammastd_yxt": Program("njit", _attr(STATS, "gammastd_yxt"), gen_gammastd_yxt, 308),
+    "mk_score": Program("njit", _attr(STATS, "mk_score"), gen_mk1, 110),
+    "mk_variance_s": Program("njit", _attr(STATS, "mk_variance_s"), gen_mk1, 110),
     "mk_z_score": Program("njit", _attr(STATS, "mk_z_score"), gen_mk_z, 6),
     "mk_p_value": Program("njit", _attr(STATS, "mk_p_value"), gen_mk_p, 6),
-    "mk_sens_slope": Program("njit", _attr(STATS, "mk_sens_slope"), gen_mk1, 70),
-    "mann_kendall_trend_1d": Program("njit", _attr(STATS, "mann_kendall_trend_1d"), gen_mk1, 70),
-    "mann_kendall_trend_yxt": Program("njit", _attr(STATS, "mann_kendall_trend_yxt"), gen_mk_yxt, 196),
-    "autocorr_1d_int": Program("njit", _attr("hdc.algo.ops.autocorr", "autocorr_1d_int"), gen_ac_int, 70),
-    "autocorr_1d_float": Program("njit", _attr("hdc.algo.ops.autocorr", "autocorr_1d_float"), gen_ac_float, 70),
-    "autocorr_1d": Program("njit", _attr("hdc.algo.ops.autocorr", "autocorr_1d"), gen_ac_1d, 70),
-    "autocorr": Program("njit", _attr(OPS_PKG, "autocorr"), gen_autocorr, 196),
-    "autocorr_tyx": Program("njit", _attr(OPS_PKG, "autocorr_tyx"), gen_autocorr_tyx, 196),
+    "mk_sens_slope": Program("njit", _attr(STATS, "mk_sens_slope"), gen_mk1, 110),
+    "mann_kendall_trend_1d": Program("njit", _attr(STATS, "mann_kendall_trend_1d"), gen_mk1, 110),
+    "mann_kendall_trend_yxt": Program("njit", _attr(STATS, "mann_kendall_trend_yxt"), gen_mk_yxt, 308),
+    "autocorr_1d_int": Program("njit", _attr("hdc.algo.ops.autocorr", "autocorr_1d_int"), gen_ac_int, 110),
+    "autocorr_1d_float": Program("njit", _attr("hdc.algo.ops.autocorr", "autocorr_1d_float"), gen_ac_float, 110),
+    "autocorr_1d": Program("njit", _attr("hdc.algo.ops.autocorr", "autocorr_1d"), gen_ac_1d, 110),
+    "autocorr": Program("njit", _attr(OPS_PKG, "autocorr"), gen_autocorr, 308),
+    "autocorr_tyx": Program("njit", _attr(OPS_PKG, "autocorr_tyx"), gen_autocorr_tyx, 308),
     "do_mean": Program("njit", _attr("hdc.algo.ops.zonal", "do_mean"), gen_do_mean, 144),
 }
 
